@@ -197,4 +197,11 @@ def rule_edges_usable(ctx):
     # giving up (proceed without a verdict) sends the body: cell body-due=1 -> SendBody is R09.2's successor-by-flags
 
 
-RULES = [rule_await_table, rule_late_100, rule_edges_usable]
+def rule_parser_premise(ctx):
+    """the handshake tables take the head parser's verdict classes as inputs; that every answer of the parser is the
+    tokeniser's verdict on the whole offered input (no length pre-check, no scan) is R05.1 on the parser, shared"""
+    from . import rules_parsers
+    rules_parsers.rule_c05_parser(ctx)
+
+
+RULES = [rule_await_table, rule_late_100, rule_edges_usable, rule_parser_premise]
